@@ -288,6 +288,11 @@ def decoder_rules(ctx, R, skip_d3=False):
     for c in walk_no_nested(get.node):
         if isinstance(c, ast.Call) and isinstance(c.func, ast.Attribute) and c.func.attr == "splitlines":
             recv = c.func.value
+            if isinstance(recv, ast.Name):
+                ds = [a.value for a in walk_no_nested(get.node) if isinstance(a, ast.Assign) and any(
+                    isinstance(t, ast.Name) and t.id == recv.id for t in a.targets)]
+                if ds and all(isinstance(d, ast.Call) and call_name(d) in ("decode", "str") for d in ds):
+                    recv = ds[0]
             if isinstance(recv, ast.Call) and call_name(recv) in ("decode", "str") or any(
                     isinstance(x, ast.Call) and call_name(x) == "decode" for x in ast.walk(recv)):
                 probs.append(("text-splitlines", c))
